@@ -138,3 +138,19 @@ for nm, stale in (('2ref-2el', ['H']), ('2ref-partial', ['H', 'O']), ('3ref-2el(
                            '%s * ((%s) - (%s - self.references[%d].HoRT_ref))' % (comp(i, d), predicted(i), dft(i), i)
                            for i in range(n)) for d in keys))],
              cross_check=False)
+
+# ---- descriptors the references do not cover, in every position: the covered ones still get their offsets ---------------
+for order in (('Pt', 'H'), ('H', 'Pt', 'O'), ('Pt', 'O', 'H'), ('H', 'O', 'Pt')):
+    contract(RF + 'References.get_HoRT', P, label='descriptor-absent[%s]' % ','.join(order),
+             args=dict(self=fitted(['H', 'O']), descriptors=DictOf({k: Real(0., 8.) for k in order}), T=T), requires=['T > 0'],
+             ensures=[('covered-descriptors-keep-their-offsets',
+                       "result == -(%s) * self.T_ref / T" % ' + '.join("self.offset[%r] * descriptors[%r]" % (k, k) for k in order if k != 'Pt'))],
+             warns='True', cross_check=False)
+# the per-contribution (verbose) form follows the switch as well
+for q in ('HoRT', 'GoRT'):
+    contract(SM + '.get_' + q, P, label='verbose,references-off',
+             args=dict(self=species(), T=T, verbose=Const(True), use_references=Const(False)), requires=['T > 0'],
+             ensures=[('reference-slot-is-zero', 'result[5] == 0')], cross_check=False)
+    contract(SM + '.get_' + q, P, label='verbose,references-on',
+             args=dict(self=species(), T=T, verbose=Const(True), use_references=Const(True)), requires=['T > 0'],
+             ensures=[('reference-slot-is-the-adjustment', 'result[5] == ' + ADJ)], cross_check=False)
